@@ -135,7 +135,8 @@ Exec(st, prog, mode, r, lt, p) ==
       [] i.op = "YR" ->     \* raise YieldAndReset(delta): the value is yielded and the body starts over at the next wake-up
                             \* (only the first time it is reached: the drivers skip it afterwards, so programs end)
             IF me.yr THEN Exec(adv(st), prog, mode, r, lt, p)
-            ELSE [st EXCEPT !.rt = Put(st.rt, r, [me EXCEPT !.pc = 1, !.n = 0, !.yr = TRUE]),
+            \* (the routine is back in state Init although it stays scheduled: a play() meanwhile moves it)
+            ELSE [st EXCEPT !.rt = Put(st.rt, r, [me EXCEPT !.pc = 1, !.n = 0, !.yr = TRUE, !.st = "init"]),
                             !.q = Put(st.q, me.clock, Insert(Without(st.q[me.clock], r), [p |-> p + i.a, s |-> st.ctr, t |-> r])),
                             !.ctr = st.ctr + 1]
       [] i.op = "E" -> [st EXCEPT !.rt = Put(st.rt, r, [me EXCEPT !.st = "done", !.pc = Len(body) + 1])]
@@ -221,7 +222,7 @@ Wake(st, prog, mode, r) ==
         s0 == [st EXCEPT !.q = Put(st.q, c, Tail(st.q[c])), !.last = lt,
                          !.bad = IF ~IsId(c) /\ ~ExactB2S(st.clk[c], e.p) THEN "nondyadic" ELSE st.bad] IN
     IF me.st = "paused" \/ me.st = "done" THEN s0
-    ELSE LET s1 == [s0 EXCEPT !.rt = Put(s0.rt, r, [me EXCEPT !.n = me.n + 1]),
+    ELSE LET s1 == [s0 EXCEPT !.rt = Put(s0.rt, r, [me EXCEPT !.n = me.n + 1, !.st = "susp"]),
                               !.out = Append(s0.out, Obs(r, me.n, lt, IF IsId(c) THEN lt ELSE e.p))] IN
          Exec(s1, prog, mode, r, lt, e.p)
 
